@@ -83,7 +83,11 @@ func (watcher *RequestWatcher) StopAll() {
 	defer watcher.requestsMapMutex.RUnlock()
 
 	for _, request := range watcher.requests {
-		request.SetProcessedTimeout()
+		// a request that already got its verdict may still be on the watch list (it is removed
+		// asynchronously): signalling it a second time would panic the engine on shutdown
+		if request.StartProcessing() {
+			request.SetProcessedTimeout()
+		}
 	}
 }
 
